@@ -64,7 +64,7 @@ def write_ws(root, name, chunks, derive):
         "[profile.dev]\ndebug = false\nincremental = false\nopt-level = 0\n[profile.dev.build-override]\nopt-level = 1\ndebug = false\n")
     shutil.copy(os.path.join(REPO, "Cargo.lock"), os.path.join(ws, "Cargo.lock"))
     open(os.path.join(ws, ".cargo", "config.toml"), "w").write(
-        "[net]\noffline = true\n[build]\nrustflags = [\"--cfg\", \"enum_tools_verif\", \"--check-cfg\", \"cfg(enum_tools_verif)\", \"--cap-lints\", \"allow\"]\n")
+        "[net]\noffline = true\n[build]\nrustflags = [\"--cfg\", \"enum_tools_verif\", \"--check-cfg\", \"cfg(enum_tools_verif)\"]\n")
     return ws, spans
 
 
